@@ -1392,6 +1392,109 @@ fn many_handles(n: usize, senders: bool, stats: &mut (u64, u64)) -> Result<(), S
     if senders { r.is_disconnected() } else { s.is_disconnected() }.then(|| ()).map_or(Ok(()), |_| Err("disconnected although two handles of the side are alive".to_string()))
 }
 
+/// The handle counters are `u32`: keep u32::MAX handles of one side alive (cloned and forgotten: a handle that is
+/// never dropped is a live handle), check the count and the other side's view, then create one more. Creating it may
+/// be refused (the process aborts, as `Arc` and std's channels do) but if it returns, the other side must not see a
+/// disconnect and the count must be right again once that handle is dropped.
+fn count_limit(senders: bool) -> ! {
+    use std::io::Write;
+    let (s, r) = kanal::bounded::<u8>(1);
+    let (a_s, a_r) = (s.clone_async(), r.clone_async());
+    if let Ok(mut l) = CUR_CALL.lock() {
+        *l = (0, format!("count_limit senders={}", senders));
+    }
+    let t0 = std::time::Instant::now();
+    let target = u32::MAX as u64; // live handles of the side, including s/a_s (or r/a_r)
+    let mut live = 2u64;
+    let mut k = 0u64;
+    while live < target {
+        if k & 0xffff == 0 {
+            BEAT.fetch_add(1, std::sync::atomic::Ordering::Relaxed);
+        }
+        match (senders, k & 3) {
+            (true, 0) => std::mem::forget(s.clone()),
+            (true, 1) => std::mem::forget(s.clone_async()),
+            (true, 2) => std::mem::forget(a_s.clone_sync()),
+            (true, _) => std::mem::forget(a_s.clone()),
+            (false, 0) => std::mem::forget(r.clone()),
+            (false, 1) => std::mem::forget(r.clone_async()),
+            (false, 2) => std::mem::forget(a_r.clone_sync()),
+            (false, _) => std::mem::forget(a_r.clone()),
+        }
+        k += 1;
+        live += 1;
+    }
+    let count = || if senders { r.sender_count() as u64 } else { s.receiver_count() as u64 };
+    let probe = || -> Option<String> {
+        if senders {
+            if r.is_disconnected() || r.is_closed() || r.is_terminated() {
+                return Some(format!("receiver reports is_disconnected={} is_closed={}", r.is_disconnected(), r.is_closed()));
+            }
+            if let Err(e) = r.try_recv() {
+                return Some(format!("try_recv returned Err({:?})", e));
+            }
+        } else {
+            if s.is_disconnected() || s.is_closed() {
+                return Some(format!("sender reports is_disconnected={} is_closed={}", s.is_disconnected(), s.is_closed()));
+            }
+            match s.try_send(1) {
+                Ok(true) => {
+                    let _ = r.try_recv();
+                }
+                o => return Some(format!("try_send into an empty buffer returned {:?}", o)),
+            }
+        }
+        None
+    };
+    let side = if senders { "sender" } else { "receiver" };
+    let mut viol: Vec<String> = vec![];
+    if count() != target {
+        viol.push(format!("{}_count() returned {} with {} live handles of that side", side, count(), target));
+    }
+    if let Some(p) = probe() {
+        viol.push(format!("with {} live {}s: {}", target, side, p));
+    }
+    let line = |stage: &str, viol: &Vec<String>, t: f64| {
+        let v: Vec<J> = viol
+            .iter()
+            .map(|w| J::O(vec![("engine".into(), J::s("seqdiff")), ("property".into(), J::s("C12")), ("what".into(), J::s(w.clone())), ("replay".into(), J::s(format!("seqdiff --count-limit {}", if senders { "s" } else { "r" })))]))
+            .collect();
+        let o = J::O(vec![
+            ("engine".into(), J::s("seqdiff")),
+            ("count_limit".into(), J::B(true)),
+            ("side".into(), J::s(side)),
+            ("stage".into(), J::s(stage)),
+            ("live_handles_reached".into(), J::U(target)),
+            ("sequences".into(), J::U(1)),
+            ("calls".into(), J::U(target)),
+            ("violations".into(), J::A(v)),
+            ("nviolations".into(), J::U(viol.len() as u64)),
+            ("wall_s".into(), J::F(t)),
+        ]);
+        println!("{}", o.to_string());
+        let _ = std::io::stdout().flush();
+    };
+    if !viol.is_empty() {
+        line("at_limit", &viol, t0.elapsed().as_secs_f64());
+        std::process::exit(1);
+    }
+    // everything up to here is what the API can express; now the handle that does not fit
+    line("at_limit", &viol, t0.elapsed().as_secs_f64());
+    {
+        let extra_s = if senders { Some(s.clone()) } else { None };
+        let extra_r = if senders { None } else { Some(r.clone()) };
+        if let Some(p) = probe() {
+            viol.push(format!("with {} live {}s (all of them still alive): {}, {}_count() = {}", target + 1, side, p, side, count()));
+        }
+        drop((extra_s, extra_r));
+    }
+    if viol.is_empty() && count() != target {
+        viol.push(format!("{}_count() returned {} with {} live handles of that side, after one more handle was created and dropped", side, count(), target));
+    }
+    line("beyond_limit", &viol, t0.elapsed().as_secs_f64());
+    std::process::exit(if viol.is_empty() { 0 } else { 1 });
+}
+
 fn gcd(a: usize, b: usize) -> usize {
     if b == 0 {
         a
@@ -1434,6 +1537,9 @@ fn main() {
                 }
             }
         });
+    }
+    if let Some(side) = a.get("count-limit") {
+        count_limit(side == "s");
     }
     payload::init(if cfg!(miri) { 1 << 10 } else { 1 << 12 });
     kverif::fp::install();
